@@ -109,3 +109,163 @@ def _(c):
 def _sort_tag(t):
     from vp.lib import sort_tag
     return sort_tag(t.sort())
+
+
+def join2(a, b):
+    """os.path.join(a, b) for two strings (POSIX, definitional)"""
+    return z3.If(z3.PrefixOf(STR('/'), b), b,
+                 z3.If(z3.Or(a == STR(''), z3.SuffixOf(STR('/'), a)), z3.Concat(a, b), z3.Concat(a, STR('/'), b)))
+
+
+# --------------------------------------------------------------------------
+# SubprocessVerifier._verify_one_file (C01, C07, C16)
+
+@contract('gemato/recursiveloader.py', 'SubprocessVerifier._verify_one_file', props=['C01', 'C07', 'C16', 'C06', 'C18'])
+def _(c):
+    c.params(self=SV, path=Str, relpath=Str, e=Opt(PathEntry))
+    c.returns(Any)
+    c.only_raises('ManifestCrossDevice', 'OSError', 'UnsupportedHash', '<opaque>')
+    c.note('<opaque>: the exception the failure handler raises (ManifestMismatch with the default handler)')
+
+    def setup(it, fr, bound):
+        def hook(itp, fv, args, kwargs, node):
+            itp.ctx.ghost.setdefault('handler_calls', []).append((args, list(itp.ctx.pc)))
+            return None
+        it.engine.opaque_call_hook = hook
+    c.setup = setup
+
+    def site(s, args, kwargs, raw):
+        ed = opt_term(kwargs.get('expected_dev'), OptInt)
+        lm = opt_term(kwargs.get('last_mtime'), OptReal)
+        return z3.And(args[0] == s.path, ed == s.self.manifest_device, lm == s.self.last_mtime)
+    c.site('verifies-this-path-with-the-loader-device-and-mtime', 'verify_path', site)
+
+    def verdict(s):
+        """handler called exactly once iff the file is rejected; an accepted file yields True"""
+        from .verify import sorted_keys
+        f = file_facts(s.path)
+        lm = s.self.last_mtime
+        ev = s.e.val
+        cks = ev.checksums
+        ks = sorted_keys(cks)
+        skip = z3.And(f['size'] != 0, f['size'] == ev.size, z3.Not(OptReal.is_none(lm)), f['mtime'] <= OptReal.val(lm))
+        full = z3.And(z3.Or(f['size'] == 0, f['size'] == ev.size), z3.Length(f['data']) == ev.size,
+                      all_digests_match(s, ks, z3.Length(ks), cks, f['data']))
+        accepted = z3.If(s.e.is_none, f['absent'],
+                         z3.Or(ev.tag == STR('IGNORE'), z3.And(f['present'], f['SE'] == 0, f['reg'], z3.Or(skip, full))))
+        calls = s.ghost('handler_calls', [])
+        if not calls:
+            return z3.And(accepted, S.ubox(s.result) == U.vbool(True))
+        return z3.And(z3.Not(accepted), len(calls) == 1, z3.Not(U.is_vnone(S.ubox(s.result))))
+    c.ensures('handler-called-once-iff-rejected', verdict, internal=True)
+
+    def raised_by_handler(s):
+        return True
+    c.ensures('none-from-handler-counts-as-accept', lambda s: z3.Not(U.is_vnone(S.ubox(s.result))))
+
+
+# --------------------------------------------------------------------------
+# ManifestRecursiveLoader.load_manifest / save_manifest / __init__
+
+OptMF = opt_sort(z3.IntSort())
+
+
+@contract('gemato/recursiveloader.py', 'ManifestRecursiveLoader.load_manifest', props=['C02', 'C06', 'C10', 'C18', 'C19'])
+def _(c):
+    c.params(self=RL, relpath=Str, verify_entry=Opt(PathEntry), allow_create=Bool, store_dev=Bool)
+    c.returns(Obj('ManifestFile'))
+    c.only_raises('ManifestMismatch', 'OSError', 'UnsupportedHash', 'ManifestSyntaxError', 'ManifestUnsignedData',
+                  'AssertionError', '<opaque>')
+
+    def modifies(it, bound):
+        ctx = it.ctx
+        me = bound['self']
+        for f in ('loaded_manifests', 'updated_manifests', 'manifest_device'):
+            ty = it.engine.field_type(f)
+            ctx.heap[f] = z3.Store(ctx.field_array(f), me.t, ctx.fresh_const('lm!' + f, ty.sort()))
+    c.modifies(modifies)
+
+    def registered(s):
+        lm = s.self.loaded_manifests
+        old = s.old.self.loaded_manifests
+        return lm == z3.Store(old, s.relpath, OptMF.some(s.result.ref))
+    c.ensures('registers-exactly-this-manifest', registered)
+
+    def queued_only_when_created(s):
+        um, old = s.self.updated_manifests, s.old.self.updated_manifests
+        return z3.Or(um == old, z3.And(s.allow_create, um == z3.Store(old, s.relpath, True),
+                                       FS.fs_open_err(join2(s.self.root_directory, s.relpath)) == errno.ENOENT))
+    c.ensures('new-manifest-only-when-allowed-and-absent', queued_only_when_created, props=['C06', 'C10'])
+
+    c.exc_ensures('missing-file-is-an-error-unless-creating', 'FileNotFoundError',
+                  lambda s: z3.Or(z3.Not(s.allow_create), True))
+
+    def create_only_if_allowed(s, args, kwargs, raw):
+        return s.allow_create
+    c.site('creation-path-only-with-allow_create', 'updated_manifests.add', create_only_if_allowed, props=['C06'])
+
+    def passes_entry(s, args, kwargs, raw):
+        from vp.contract import UnionView
+        return z3.And(args[0] == s.relpath)
+    c.site('loads-the-requested-manifest-with-its-entry', 'verify_and_load', passes_entry, props=['C02'])
+
+
+@contract('gemato/recursiveloader.py', 'ManifestRecursiveLoader.save_manifest', props=['C14', 'C10', 'C13', 'C18'])
+def _(c):
+    c.params(self=RL, relpath=Str, sort=Bool)
+    c.returns(Int)
+    c.only_raises('OSError', 'AssertionError', '<opaque>')
+    c.requires('manifest-is-loaded',
+               lambda s: z3.Not(OptMF.is_none(z3.Select(s.self.loaded_manifests, s.relpath))))
+
+    def setup(it, fr, bound):
+        def open_w(itp, b, node):
+            p = itp.ctx.force(b['path'])
+            mode = itp.ctx.force(b['mode'])
+            itp.ctx.ghost.setdefault('opened', []).append((p.t, mode, list(itp.ctx.pc)))
+            e = z3.Function('fs_openw_err', z3.StringSort(), z3.IntSort())(p.t)
+            if not itp.ctx.branch(e == 0, 'openw-ok'):
+                FS.raise_oserror(itp, 'open(w)', e, p.t, node)
+            o = itp.ctx.new_object('_TextSink')
+            itp.ctx.write_field(o.t, '_written', VStr(''))
+            itp.ctx.ghost['sink'] = o
+            return o
+        from vp.contract import REGISTRY
+        c_ = REGISTRY[('gemato/compression.py', 'open_potentially_compressed_path')]
+        it.engine.registry = dict(it.engine.registry)
+        import copy
+        c2 = copy.copy(c_)
+        c2.model = open_w
+        it.engine.registry[('gemato/compression.py', 'open_potentially_compressed_path')] = c2
+    c.setup = setup
+
+    def writes_its_own_file(s, args, kwargs, raw):
+        return z3.And(args[0] == join2(s.self.root_directory, s.relpath), args[1] == STR('w'))
+    c.site('writes-only-the-manifest-file-itself', 'open_potentially_compressed_path', writes_its_own_file, props=['C10'])
+
+    def sign_only_top_level(s, args, kwargs, raw):
+        so = opt_term_b(kwargs.get('sign_openpgp'))
+        top = s.relpath == s.self.top_level_manifest_filename
+        return z3.If(top, so == s.self.sign_openpgp, so == OB.some(z3.BoolVal(False)))
+    c.site('sub-manifests-are-never-signed', 'm.dump', sign_only_top_level, props=['C14'])
+
+    def dump_target(s, args, kwargs, raw):
+        m = z3.Select(s.self.loaded_manifests, s.relpath)
+        a = raw[0]
+        return z3.And(OptMF.val(m) == s.cur.m.ref, kwargs.get('sort') == s.sort)
+    c.site('dumps-the-loaded-manifest-with-the-requested-sorting', 'm.dump', dump_target, props=['C12', 'C10'])
+
+
+def opt_term_b(x):
+    from vp.contract import UnionView
+    if x is None:
+        return OB.none
+    if isinstance(x, UnionView):
+        t = None
+        for g, a in reversed(x.v.alts):
+            e = OB.none if isinstance(a, VNone) else OB.some(a.t)
+            t = e if t is None else z3.If(g, e, t)
+        return t
+    if z3.is_bool(x):
+        return OB.some(x)
+    return x
